@@ -136,15 +136,16 @@ class C02(NetCheck):
         opts = desc["opts"]
         if netsim.is_spilling(opts):
             cache = netsim.opt_value(opts, "--arena-cache-size")
-            if cache is None and netsim.opt_value(opts, "--memory-mode") is None:
-                cache = 384 * 1024  # documented internal default of Ethos-U65
+            if cache is None:
+                cache = 384 * 1024  # default of the --arena-cache-size option
             if cache is not None:
                 for e in res["plan"].eops.values():
                     fs = e["fast_t"].elems()
                     out["counters"].setdefault("probe", {})["spilling_checked"] = 1
                     if fs > int(cache):
+                        rounding_only = fs == -(-int(cache) // 16) * 16
                         out["viol"].append(dict(prop="C02", oracle="fast_scratch_exceeds_arena_cache", fast=fs, cache=int(cache),
-                                                sig=dict(oracle="fast_scratch_exceeds_arena_cache", kind=None)))
+                                                sig=dict(oracle="fast_scratch_exceeds_arena_cache", rounding_only=rounding_only)))
 
 
 class C03(NetCheck):
